@@ -8,6 +8,7 @@ Oracle: Q[S](v) = P(s | do(v minus s)) on the witness SCM by truncated factorisa
 
 from __future__ import annotations
 
+import itertools as itt
 from functools import lru_cache
 
 from ..graphs import (
@@ -54,8 +55,8 @@ def describe(tier):
         + "; every linear extension as topological order; every district T; every non-empty C in T with G[C] one district; "
         "Q[T] supplied as computed by compute_c_factor from P(V) / from a population-tagged joint, as the hand-written Lemma-1 "
         "product, and (when V minus T precedes T) as the plain or population-tagged conditional P(T | V minus T); every ancestral set "
-        "for the c-factor routines (Lemma 1 from P(A), Lemma 4 from Sum P(V)"
-        + (", first and last linear extension only" if tier == "quick" else "")
+        "for the c-factor routines (Lemma 1 from P(A), Lemma 4 from Sum P(V) and from P(A) written as a chain-rule product in every order of A"
+        + (", first and last linear extension only, chain-rule products under the first" if tier == "quick" else "")
         + "); binary + ternary witness; every assignment",
         "rule": "state = (graph, topological order, T, C); transition = one identify_district_variables / compute_c_factor "
         "call whose result is evaluated on the witness SCM and compared with P(c | do(v minus c))",
@@ -190,7 +191,15 @@ def explore_graph(res: Res, g: G, tier, seed, only=None):
             a_topo = [V(n) for n in topo if n in a]
             rest = [V(n) for n in topo if n not in a]
             for d in sorted(sorted(x) for x in districts(ga)):
-                for src, prob in (("P(A)", P(*a_topo)), ("Sum P(V)", Sum.safe(joint, rest) if rest else None)):
+                forms = [("P(A)", P(*a_topo)), ("Sum P(V)", Sum.safe(joint, rest) if rest else None)]
+                if len(a) >= 2 and (tier != "quick" or ti == 0):
+                    # the same distribution P(A) spelled as a chain-rule product over every order of A (a Product input)
+                    for perm in itt.permutations(sorted(a)):
+                        pv = [V(n) for n in perm]
+                        forms.append(
+                            ("chain(" + ",".join(perm) + ")", Product.safe(P(pv[i] | pv[:i]) if i else P(pv[0]) for i in range(len(pv))))
+                        )
+                for src, prob in forms:
                     if prob is None:
                         continue
                     case3 = {"graph": g.to_json(), "topo": list(topo), "A": list(a), "D": d, "from": src}
